@@ -768,20 +768,51 @@ pub fn static_checks(comp: &BTreeMap<String, Val>, rf: &Reference) -> StaticRepo
                 })
             })();
             let Some((l, s, r)) = probe else { continue };
-            // rows with a value lacking a language would make the lookup unwrap a None: S1/S3 report those
-            if let Val::Tuple(cols) = row {
-                if let Some(Val::Tuple(v)) = cols.last() {
-                    if v.first() == Some(&Val::None) {
-                        continue;
+            // rows whose value lacks a language (the lookup would unwrap a None) or does not decode
+            // are skipped here: S1/S3 report those
+            // the stored value, decoded by the harness's own unpacker
+            let expect: Option<(String, Option<String>, Option<String>)> = (|| {
+                let Val::Tuple(cols) = row else { return None };
+                let Some(Val::Tuple(v)) = cols.last() else { return None };
+                let int = |x: &Val| -> Option<Option<u128>> {
+                    match x {
+                        Val::None => Some(None),
+                        Val::Some(b) => match **b {
+                            Val::Int(i) => Some(Some(i)),
+                            _ => None,
+                        },
+                        _ => None,
                     }
-                }
-            }
+                };
+                let l = decode_lang(int(v.first()?)??).ok()?;
+                let s = match int(v.get(1)?)? {
+                    Some(i) => Some(decode_script(i).ok()?),
+                    None => None,
+                };
+                let r = match int(v.get(2)?)? {
+                    Some(i) => Some(decode_region(i).ok()?),
+                    None => None,
+                };
+                Some((l, s, r))
+            })();
+            let Some(expect) = expect else { continue };
             tried += 1;
             lookups += 1;
             let res = std::panic::catch_unwind(|| ls::maximize(l, s, r));
-            match res {
-                Ok(Some(_)) => lookups_found += 1,
-                _ => missed.push((i, k)),
+            let got = match res {
+                Ok(Some((gl, gs, gr))) => Some((
+                    gl.as_str().to_string(),
+                    gs.map(|x| x.as_str().to_string()),
+                    gr.map(|x| x.as_str().to_string()),
+                )),
+                _ => None,
+            };
+            // found = the lookup answers with exactly the value stored in this row (an answer
+            // taken from a less specific table after a failed search does not count)
+            if got.as_ref() == Some(&expect) {
+                lookups_found += 1;
+            } else {
+                missed.push((i, k));
             }
         }
         if !missed.is_empty() {
@@ -795,7 +826,7 @@ pub fn static_checks(comp: &BTreeMap<String, Val>, rf: &Reference) -> StaticRepo
                         "row-not-found-by-lookup",
                         &key_label(t, k),
                         format!(
-                            "{}[{}] (key {}) is not found by likelysubtags::maximize although {} of {} rows of the table are: the table is not ordered the way the lookup searches it",
+                            "{}[{}] (key {}) is not found by likelysubtags::maximize (it does not answer with the value stored in that row) although {} of {} rows of the table are: the table is not ordered the way the lookup searches it",
                             t,
                             i,
                             key_label(t, k),
